@@ -347,7 +347,11 @@ func TestC09(t *testing.T) {
 				_ = json.Unmarshal(rec.Body.Bytes(), &env)
 				for i := 0; i < nLead; i++ {
 					if i >= len(env.Data) || env.Data[i].ResponseType != "CREATE_TRANSACTION" {
-						harnessError(rt, "lead element %d of the bulk did not succeed: %s", i, clip(rec.Body.String()))
+						// a lead element is valid by construction (paid by @world, a reference no other request carries)
+						if !c.IsKnown("C09/bulk/lead-refused") {
+							violation(rt, c, "C09/bulk/lead-refused", "element %d of the bulk, a valid transaction paid by @world with a reference of its own, was refused: %s", i, clip(rec.Body.String()))
+						}
+						return
 					}
 				}
 				seeded += nLead
